@@ -16,7 +16,7 @@ cd $WT
 PYTHONPATH=$WT PYTHONWARNINGS=ignore timeout 300 /venv/bin/python $SRC/demo.py >/tmp/scratch/demo-$LABEL-without.log 2>&1; D0=$?
 git apply $SRC/patch.diff || { echo "SEED $LABEL: patch does not apply"; exit 2; }
 PYTHONPATH=$WT PYTHONWARNINGS=ignore timeout 300 /venv/bin/python $SRC/demo.py >/tmp/scratch/demo-$LABEL-with.log 2>&1; D1=$?
-timeout 900 /venv/bin/python -m pytest -q -p no:cacheprovider --timeout=120 -n 6 \
+timeout 900 /venv/bin/python -m pytest -q -p no:cacheprovider --timeout=120 -n 3 \
   --deselect tests/proxy/integration/test_http.py::TestMITMProxy::test_mitmproxy_works >/tmp/scratch/suite-$LABEL.log 2>&1; S=$?
 echo "SEED $LABEL: demo_without_rc=$D0 demo_with_rc=$D1 suite_rc=$S ($(tail -1 /tmp/scratch/suite-$LABEL.log))"
 cd $VERIF
